@@ -90,7 +90,9 @@ def gen_single(rng, ndocs, kinds=('validate', 'validate', 'validate', 'context',
     if k == 'validate':
         return {'k': 'validate', 'doc': d, 'sinks': [s for s in ('ack', 'html', 'xml') if rng.random() < 0.6] or ['ack'],
                 'charset': rng.choice(['E', 'E', 'B']), 'bufsize': rng.choice([8192, 8192, 64]),
-                'exclude': rng.choice([None, None, None, 'states', 'states,country,currency', 'entity_id,remark_code,pos'])}
+                'exclude': rng.choice([None, None, None, 'states', 'states,country,currency', 'entity_id,remark_code,pos']),
+                # parameter object built from a configuration file (its options must not reach later parameter objects)
+                'conf': rng.choice([None] * 7 + [{'simple_dtd': 'http://x12.example/x12simple.dtd'}])}
     if k == 'context':
         return {'k': 'context', 'doc': d, 'loop_id': rng.choice([None, 'ST_LOOP', 'ISA_LOOP', '2000A', '2300', '2000', '2100', 'NOPE']),
                 'copy_trees': rng.random() < 0.4}
